@@ -108,7 +108,8 @@ def history(hid, rng):
     beta = np.array([[rng.choice([0, 5, -7, 100]) for _ in range(T)]] +
                     [[q * rng.choice([-2, 0, 1, 3]) for _ in range(T)] for _ in range(q - 1)], dtype=float)
     bstar = beta[0] + (beta[1:].sum(0) / q if q > 1 else 0.0)
-    model = DenseAdditiveLinearGenomicModel(beta=beta, u_misc=None, u_a=u,
+    um = None if rng.random() < 0.6 else np.array([[rng.randrange(-9, 10) for _ in range(T)] for _ in range(rng.randrange(1, 4))], dtype=float)
+    model = DenseAdditiveLinearGenomicModel(beta=beta, u_misc=um, u_a=u,
                                             trait=np.array(["t%d" % t for t in range(T)], dtype=object))
     sizes = [2, 3, 4, 7, 12, 49, 98, 103, 107, 161, 250]
     n0 = rng.choice(sizes)
